@@ -269,7 +269,7 @@ def project(pid, op, group, canon, ctx):
             return c(res)
         return None
     if pid == "C09":
-        if cmd == "locked":
+        if cmd in ("locked", "reg"):
             return res
         if cmd in ("q", "qx", "qall"):
             return status(res)
@@ -325,6 +325,15 @@ def project(pid, op, group, canon, ctx):
             m = re.search(r"(pool .*? \| index .*?)( \||$)", res)
             return m.group(1) if m else res
         return None
+    if pid == "C19":
+        # worlds created later in the same sequence (`world+`, loaded from the same dump) must not
+        # see anything done in an earlier one
+        if ctx.get("after_world_plus"):
+            if cmd in CREATE or cmd in ("alive", "stats", "dump", "rm", "load", "snapshot"):
+                return res
+            if cmd == "shape":
+                return "~" + res
+        return None
     if pid == "C20":
         if cmd in ("resadd", "resrem", "resget", "reshas", "resreg"):
             return res
@@ -351,9 +360,9 @@ def compare(pid, ops, impl_groups, model_groups):
         seq, op = ops[i]
         cmd = op.split()[0]
         gi, gm = impl_groups[i], model_groups[i]
-        if cmd == "world":
+        if cmd in ("world", "world+"):
             ci, cm = Canon(), Canon()
-            ctx = {}
+            ctx = {"after_world_plus": cmd == "world+"}
         if cmd == "lst":
             ctx["full_listener"] = op.split()[1:] == ["63", "-"]
         elif cmd in ("nolst", "disp"):
@@ -408,27 +417,27 @@ def seq_lines(ops, seq):
     return [l for s, l in ops if s == seq]
 
 
-def fails(pid, harness, lines, workdir, tag="shrink"):
-    """does this op list still show a projection difference?"""
+def fails(pid, harness, lines, workdir, tag="shrink", need_hard=False):
+    """does this op list still show a projection difference (an observable one if need_hard)?"""
     p = os.path.join(workdir, tag + ".ops")
     open(p, "w").write("# seq 0 seed 0\n" + "\n".join(lines) + "\n")
     run_impl(harness, p, p + ".impl", timeout=120)
     run_model(p, p + ".model", timeout=120)
     ops, _ = read_ops(p)
     d = compare(pid, ops, read_groups(p + ".impl"), read_groups(p + ".model"))
-    return d["kind"] != "ok", d
+    return d["kind"] != "ok" and not (need_hard and d.get("soft")), d
 
 
-def shrink(pid, harness, lines, workdir, budget=400):
+def shrink(pid, harness, lines, workdir, budget=400, need_hard=False):
     """ddmin over op lines (the first line, `world …`, and registrations are kept)"""
-    head = [l for l in lines if l.split()[0] in ("world",)]
-    body = [l for l in lines if l.split()[0] not in ("world",)]
+    head = lines[:1]
+    body = lines[1:]
     tests = 0
 
     def bad(b):
         nonlocal tests
         tests += 1
-        f, _ = fails(pid, harness, head + b, workdir)
+        f, _ = fails(pid, harness, head + b, workdir, need_hard=need_hard)
         return f
     n = 2
     while len(body) >= 2 and tests < budget:
